@@ -441,6 +441,12 @@ theorem generated_rendezvous_one_section :
 /-- a scan of the buffer before the lock is taken is rejected by the side condition (what a lost report looks like) -/
 theorem scan_outside_lock_rejected : Sync.oneSection [.scanBuf, .acq, .register, .rel] = false := by decide
 
+/-- side condition on the generated constants that makes the window hypothesis of `future_completes_once` an engineering
+    fact: the buffer of early parts (shared by all transactions, fed with the reports of every consumer's operations)
+    holds at least the reports of a completely filled operation queue plus the running operation (3 parts each) -/
+theorem generated_buffer_covers_queue_backlog :
+    3 * (Generated.C09.opQueueCap + 1) ≤ Generated.C09.reportDequeMaxlen := by decide
+
 /-! ### the generated tables are the ones the model uses -/
 
 theorem generated_tables_match :
